@@ -46,7 +46,7 @@ func propC04() *simkit.Property {
 
 var c04UserKeys = []string{"A", "B", "N"}
 var c04StrPool = []string{"a", "ab", "abc", "abd", "b", "ba", "z", "a b", "A"}
-var c04NumPool = []string{"0", "1", "-1", "+1", "007", "-0", "10", "9", "-10", "100",
+var c04NumPool = []string{"0", "1", "-1", "+1", "007", "-0", "10", "9", "-10", "100", "-7", "-5", "-70", "-50", "-12", "70", "50",
 	"115792089237316195423570985008687907853269984665640564039457584007913129639935",
 	"-115792089237316195423570985008687907853269984665640564039457584007913129639935",
 	"1e3", "0x10", "1.0", "+", "-"}
